@@ -1,6 +1,10 @@
 package gpbftsim
 
-import "github.com/filecoin-project/go-f3/gpbft"
+import (
+	"strings"
+
+	"github.com/filecoin-project/go-f3/gpbft"
+)
 
 // liveBound is the number of further rounds the property grants after stabilisation.
 func (w *World) liveBound() uint64 {
@@ -70,6 +74,15 @@ func (w *World) noteIncompatibleBest(k, r uint64) {
 func (w *World) lotteryExplains(k, round uint64) bool {
 	if round < 9 {
 		return false
+	}
+	// The lottery explains a lost round only between participants that follow the protocol: if the
+	// discipline reference model (C07) saw an honest member deviate in this run - anything but the
+	// recorded internal error of finding W1 - the missing decision is not put down to the lottery.
+	for key := range w.otherViol {
+		if strings.HasPrefix(key, "C07:") && key != "C07:internal_error" {
+			w.r.Probe("lottery_explanation_refused_after_discipline_violation")
+			return false
+		}
 	}
 	for r := round - 8; r < round; r++ {
 		if w.incompat[[2]uint64{k, r}] == 0 {
